@@ -48,6 +48,7 @@ def subspaces(tier):
     for f in ("none", "default_pair"):
         out += C.wide_subspaces(filter=f)
     out += C.wide_subspaces(filter="none", probe=True, pairs=((1, 8),))
+    out += C.tall_subspaces(filter="none") + C.tall_subspaces(filter="default_pair", shapes=((7, 3),))
     out += C.structure_subspaces(D.shapes(3, 3) + [(2, 2)], 2, False, filter="none", observed="atj")
     out += C.structure_subspaces(D.shapes(3, 3), 2, False, canonical=True, filter="default_pair", observed="disj")
     if tier == "thorough":
